@@ -1040,6 +1040,60 @@ func cliChecks(c *Ctx, bin string) {
 	expect("search in the main program", run("-n", `import "q" as q {search: "./rel"}; q::marker`), `"/R/rel/q.jq"`)
 }
 
+// loaderHistory: ONE loader resolves SEVERAL imports, one after the other, some with `search` metadata: a resolution must
+// not depend on what the loader resolved before (the loader's own path list is read-only state).  The path list given to
+// NewModuleLoader contains ignored entries (empty strings) at every position, so that the filtered list has spare capacity
+// (seeded change C18-r8a prepended the search directory IN PLACE).  Expectations are known by construction (every file's
+// marker names its own directory); implementation-only oracle, canonical case text "loader-history <paths> <program>".
+func loaderHistory(c *Ctx) {
+	e := newEnv()
+	defer e.close()
+	A, B, S := filepath.Join(e.root, "A"), filepath.Join(e.root, "B"), filepath.Join(e.root, "S")
+	for _, d := range []string{A, B, S} {
+		os.MkdirAll(d, 0o755)
+	}
+	mustWrite(filepath.Join(S, "s.jq"), `def marker: "S/s";`)
+	mustWrite(filepath.Join(S, "b.jq"), `def marker: "S/b";`)
+	mustWrite(filepath.Join(S, "d.json"), `"S/d"`)
+	mustWrite(filepath.Join(B, "b.jq"), `def marker: "B/b";`)
+	mustWrite(filepath.Join(B, "d.json"), `"B/d"`)
+	mustWrite(filepath.Join(B, "t.jq"), fmt.Sprintf("import \"s\" as s {search: %q};\nimport \"b\" as b;\ndef marker: [s::marker, b::marker];", S))
+	mustWrite(filepath.Join(A, "a.jq"), `def marker: "A/a";`)
+	pathLists := [][]string{{"", A, B}, {A, "", B}, {A, B, ""}, {"", "", A, B}, {A, B}, {"", B}, {B, "", ""}}
+	type prog struct{ src, want string }
+	progs := []prog{
+		{fmt.Sprintf(`import "s" as s {search: %q}; import "b" as b; [s::marker, b::marker]`, S), `["S/s","B/b"]`},
+		{fmt.Sprintf(`import "b" as b; import "s" as s {search: %q}; [s::marker, b::marker]`, S), `["S/s","B/b"]`},
+		{fmt.Sprintf(`import "s" as s {search: %q}; import "d" as $d; [s::marker, $d[0]]`, S), `["S/s","B/d"]`},
+		{fmt.Sprintf(`import "d" as $d {search: %q}; import "b" as b; [$d[0], b::marker]`, S), `["S/d","B/b"]`},
+		{fmt.Sprintf(`include "s" {search: %q}; import "b" as b; [marker, b::marker]`, S), `["S/s","B/b"]`},
+		{`import "t" as t; import "b" as b; [t::marker, b::marker]`, `[["S/s","B/b"],"B/b"]`},
+		{`import "b" as b; b::marker`, `"B/b"`},
+	}
+	for _, pl := range pathLists {
+		loader := gojq.NewModuleLoader(pl)
+		// the same loader for the whole sequence, and each program twice
+		for round := 0; round < 2; round++ {
+			for _, p := range progs {
+				v, err := runOne(p.src, loader)
+				got := render(v, err)
+				c.Count("loader-history")
+				if got != p.want {
+					c.Violation("loader-history paths=%q program=%s :: got %s, expected %s (one loader resolving several imports; round %d)", canonList(e, pl), strings.ReplaceAll(p.src, e.root, "/R"), got, p.want, round)
+				}
+			}
+		}
+	}
+}
+
+func canonList(e *env, ps []string) []string {
+	out := make([]string, len(ps))
+	for i, p := range ps {
+		out[i] = e.canon(p)
+	}
+	return out
+}
+
 func runC18(c *Ctx) {
 	for _, a := range c.Args {
 		if strings.HasPrefix(a, "gojq=") {
@@ -1047,6 +1101,7 @@ func runC18(c *Ctx) {
 		}
 	}
 	pathLines(c, 5*c.N)
+	loaderHistory(c)
 	lookupBatch(c, 3*c.N)
 	visBatch(c, c.N)
 	metaBatch(c, c.N)
